@@ -9,7 +9,7 @@ import (
 )
 
 func main() {
-	cmds := map[string]func(Val) Val{"C03_lts": lts.Run, "C03_transports": transports.Run, "C03_mcast": transports.RunMcast, "C03_faults": transports.RunFaults}
+	cmds := map[string]func(Val) Val{"C03_lts": lts.Run, "C03_transports": transports.Run, "C03_mcast": transports.RunMcast, "C03_faults": transports.RunFaults, "C03_source": transports.RunSource}
 	for name, f := range c03worker.Commands() {
 		cmds[name] = f
 	}
